@@ -647,8 +647,8 @@ Proof.
   unfold P1.ad_result in Ho. rewrite Hstop, Hlim, Hmoved in Ho. cbn [c01_state C1.s_latest C1.s_store] in Ho.
   fold sg in Ho. fold o in Ho.
   (* C04's retry *)
-  pose proof (P4.hinv_run w seg S0 L0 h ops _ Hw (P4.hinv_init w S0 L0 h) Hops) as Hinv.
-  destruct (P4.retry_from_inv w seg S0 L0 h _ r Hw Hinv Hr) as [_ [Hlat Hstore]]. fold st1 in Hlat, Hstore.
+  destruct (P4.hinv_run w seg S0 L0 h ops (C4.init S0 L0) Hw (P4.hinv_init w S0 L0 h) eq_refl Hops) as [Hinv Hsl].
+  destruct (P4.retry_from_inv w seg S0 L0 h _ r Hw Hinv Hsl Hr) as [_ [Hlat Hstore]]. fold st1 in Hlat, Hstore.
   pose proof (bridge_need ch h L0 Hnd Hh HL) as Hb. fold sg in Hb.
   assert (Hin : forall c, In c (cids ch (C4.s_store st1)) <-> In c (cids ch S0) \/ In c sg).
   { intros c. rewrite <- Hb. unfold cids. rewrite !in_map_iff. split.
